@@ -12,6 +12,11 @@ import (
 // depths 0..5 and automatic, queries inside and outside the bounds. It only
 // produces inputs; degenerate segments/triangles (no closest point is defined
 // for them at element level) are not produced.
+//
+// Round 2: every mesh case (point, line, tri, bvhtri) is then given an index
+// LAYOUT (relayout) and, for the octree kinds, an entry point / attribute
+// ROUTE (reroute): the element set stays what was generated, only the way the
+// mesh stores and names it changes.
 func GenRandom(out string, seed int64, n, maxn, nq int) error {
 	fo, err := os.Create(out)
 	if err != nil {
@@ -27,7 +32,7 @@ func GenRandom(out string, seed int64, n, maxn, nq int) error {
 	sizes := []int{1, 2, 3, 4, 5, 8, 13, 21, maxn}
 	depths := []int{0, 1, 2, 3, 5, -1, -1}
 	for i := 0; i < n; i++ {
-		c := Case{Id: i, Tag: "random", Kind: kinds[i%len(kinds)], Verts: [][]int{}, Idx: []int{}, Sph: [][]int{},
+		c := Case{Id: i, Tag: "random", Kind: kinds[i%len(kinds)], Verts: [][]int{}, Idx: []int{}, Decoy: [][]int{}, Sph: [][]int{},
 			QPts: [][]int{}, Ranges: [][]int{}, Rays: [][]int{}, Reps: 2}
 		dist := dists[r.Intn(len(dists))]
 		c.Tag = "random-" + dist
@@ -179,11 +184,132 @@ func GenRandom(out string, seed int64, n, maxn, nq int) error {
 			}
 			c.Rays = append(c.Rays, append(append(o, d...), tr...))
 		}
+		relayout(&c, r)
+		reroute(&c, r)
 		if err := enc.Encode(c); err != nil {
 			return err
 		}
 	}
 	return nil
+}
+
+// relayout rewrites verts/idx of a mesh case without changing its elements
+// (element i keeps its coordinates and its number):
+//
+//	plain   as generated: point clouds and untouched strips with IMPLIED indices
+//	        (empty idx: NewPointCloud / NewLineStripMesh), triangles 0,1,2,3,..
+//	perm    the vertices are stored in a random order
+//	weld    vertices with equal coordinates become one shared vertex, then perm
+//	gaps    perm, and vertices nothing refers to are stored between the others
+//	        (also first and last)
+//	all     weld, gaps, perm
+func relayout(c *Case, r *rand.Rand) {
+	switch c.Kind {
+	case "point", "line", "tri", "bvhtri":
+	default:
+		return
+	}
+	idx := c.Idx
+	if c.Kind == "point" {
+		idx = identity(len(c.Verts))
+	}
+	mode := []string{"plain", "perm", "weld", "gaps", "all"}[r.Intn(5)]
+	c.Lay = mode
+	if mode == "plain" {
+		isIdent := true
+		for k, i := range idx {
+			if i != k {
+				isIdent = false
+			}
+		}
+		if c.Kind == "point" || (c.Kind == "line" && isIdent && len(idx) == len(c.Verts) && r.Intn(2) == 0) {
+			c.Idx = []int{}
+			c.Lay = "implied"
+		}
+		return
+	}
+	verts := c.Verts
+	if mode == "weld" || mode == "all" {
+		seen := map[[3]int]int{}
+		var nv [][]int
+		ni := make([]int, len(idx))
+		for k, i := range idx {
+			key := [3]int{verts[i][0], verts[i][1], verts[i][2]}
+			j, ok := seen[key]
+			if !ok {
+				j = len(nv)
+				seen[key] = j
+				nv = append(nv, verts[i])
+			}
+			ni[k] = j
+		}
+		verts, idx = nv, ni
+	}
+	if mode == "gaps" || mode == "all" {
+		extra := 1 + r.Intn(3)
+		for k := 0; k < extra; k++ {
+			verts = append(verts, []int{r.Intn(33), r.Intn(33), r.Intn(33)})
+		}
+	}
+	// random storage order; with gaps make sure position 0 or the last position
+	// holds a vertex nothing refers to
+	perm := r.Perm(len(verts)) // old id -> new id
+	if (mode == "gaps" || mode == "all") && len(verts) > 1 {
+		last := len(verts) - 1 // an unreferenced vertex
+		want := 0
+		if r.Intn(2) == 0 {
+			want = len(verts) - 1
+		}
+		for o, nw := range perm {
+			if nw == want {
+				perm[o], perm[last] = perm[last], perm[o]
+				break
+			}
+		}
+	}
+	nv := make([][]int, len(verts))
+	for o, nw := range perm {
+		nv[nw] = verts[o]
+	}
+	ni := make([]int, len(idx))
+	for k, i := range idx {
+		ni[k] = perm[i]
+	}
+	c.Verts, c.Idx = nv, ni
+}
+
+// reroute picks the entry point and the attribute of an octree mesh case:
+//
+//	""         Mesh.OctTree / OctTreeDepth, Position only            (2 of 6)
+//	""+decoy   the same with a second float3 attribute on the mesh
+//	Position   OctTreeWithAttributeAndDepth("Position", d), decoy in Rest
+//	Rest       OctTreeWithAttributeAndDepth("Rest", d), decoy in Position
+//	Rest only  the same on a mesh that has no Position attribute
+//
+// The decoy is another non-degenerate looking geometry on the same lattice.
+func reroute(c *Case, r *rand.Rand) {
+	switch c.Kind {
+	case "point", "line", "tri":
+	default:
+		return
+	}
+	v := r.Intn(6)
+	withDecoy := false
+	switch v {
+	case 2:
+		withDecoy = true
+	case 3:
+		c.Attr, withDecoy = "Position", true
+	case 4:
+		c.Attr, withDecoy = RestAttribute, true
+	case 5:
+		c.Attr = RestAttribute
+	}
+	if withDecoy {
+		for range c.Verts {
+			c.Decoy = append(c.Decoy, []int{r.Intn(33), r.Intn(33), r.Intn(33)})
+		}
+	}
 }
 
 type gen struct {
